@@ -422,6 +422,7 @@ impl Handler<StateApplyAsyncRequest> for StateApplyManager {
         let index_manager = self.index_manager.clone().unwrap();
         let snapshot_manager = self.snapshot_manager.clone().unwrap();
         let data_wrap = self.data_wrap.clone().unwrap();
+        let pre_applied_log = self.last_applied_log;
         match &msg {
             StateApplyAsyncRequest::BuildSnapshot => {}
             StateApplyAsyncRequest::ApplyRequest(req) => {
@@ -443,6 +444,22 @@ impl Handler<StateApplyAsyncRequest> for StateApplyManager {
                     Ok(StateApplyResponse::Snapshot(header, path, snapshot_id))
                 }
                 StateApplyAsyncRequest::ApplyRequest(req) => {
+                    if req.index > pre_applied_log + 1 {
+                        //a leader only hands over its new entries: committed entries this node had not
+                        //applied yet when it became leader (or that lie behind the recorded last applied
+                        //index after a restart) are applied here first
+                        let loader = Arc::new(LogRecordLoaderInstance::new(
+                            data_wrap.clone(),
+                            index_manager.clone(),
+                        ));
+                        log_manager
+                            .send(RaftLogManagerAsyncRequest::Load {
+                                start: pre_applied_log + 1,
+                                end: req.index,
+                                loader,
+                            })
+                            .await??;
+                    }
                     let resp =
                         Self::async_apply_request_to_state_machine(req, &data_wrap, index_manager)
                             .await?;
